@@ -6,7 +6,10 @@
        0o177777); each real image must equal the image predicted for that base, rejections must be rejected; in
        addition the word-wise differences of the REAL images are compared with the differences of the predicted ones.
 """
-from ..asmcore import explore, explore_replay, replay_all, kinds_of
+import random
+
+from ..asmcore import explore, explore_given, explore_replay, replay_all, kinds_of
+from .. import gen as generators
 
 BASES = [512, 16384, 57342, 65534]          # 0o1000, 0o40000, 0o157776, 0o177776 (addresses wrap)
 
@@ -38,6 +41,11 @@ def main(run):
     recs2, inc2 = explore(run, "RelocAlphabet", "RelocIncFiles", 7, 2, BASES, simulate=(2000 if thorough else 200), depth=15,
                           seed=run.seed + 3, label="AsmCore relocation simulation (<= 7 stmts x 2 files)")
     tasks2 = replay_all(run, recs2, inc2, {"harness_link": True, "check_syms": False}, nontrivial)
+    rnd = random.Random(run.seed + 37)
+    progs = [generators.lazy_program(rnd, own_link=False) for _ in range(3000 if thorough else 300)]
+    recs3, inc3 = explore_given(run, progs, "LayoutIncFiles", [512, 16384, 57342], label=f"AsmCore given: {len(progs)} generated lazy-engine programs")
+    tasks2 += replay_all(run, recs3, inc3, opts, nontrivial)
+    run.note("lazy_engine_programs", {"generated": len(progs), "accepted_by_spec": sum(1 for r in recs3 if r["ok"])})
     hist = {}
     pic = 0
     for t in tasks + tasks2:
